@@ -250,6 +250,16 @@ def run_apalache(chk, tier):
 
 def run(tier):
     chk = core.Check("C19", tier, "model_checking")
+    # a private scratch directory per run (concurrent runs of the same check must not share files)
+    chk.work = os.path.join(chk.work, "run-%d" % os.getpid())
+    os.makedirs(chk.work, exist_ok=True)
+    try:
+        return _run(chk, tier)
+    finally:
+        shutil.rmtree(chk.work, ignore_errors=True)
+
+
+def _run(chk, tier):
     bindir = core.cargo_build(bins=["timearith"])
     # 1 + 2 + Clock: model checking
     with ThreadPoolExecutor(max_workers=5) as ex:
